@@ -340,6 +340,7 @@ func c17ProbeViewsQP(c *Ctx) {
 			if lq >= 0 && lp >= 0 {
 				vs = append(vs, vq{name: "AtLevel.AtLevel", levels: [][2]int{{len(cQ) - 1, len(cP) - 1}, {lq, lp}}})
 				vs = append(vs, vq{name: "AtLevel.AtLevel", levels: [][2]int{{lq, lp}, {0, 0}}})
+				vs = append(vs, vq{name: "AtLevel.AtLevel", levels: [][2]int{{lq, lp}, {len(cQ) - 1, len(cP) - 1}}}) // back up
 			}
 		}
 	}
